@@ -4,6 +4,9 @@ R1 inventory of size-affecting sinks reachable from the passthrough FileSystem e
 R2 gate: every path to such a sink either saw sealing switched off or passed the refusal that covers that sink
    (seal_size_check for write/fallocate, outright refusal for setattr SIZE, flag refusal for O_APPEND / O_TRUNC)
 R3 seal_size_check arm shapes and the provenance of its arguments
+R3 (cont.) the sealing comparison is `file_size < offset + size`, the overflow test is on (offset, size)
+R4 handle flags: the cached flags word tracks the descriptor (shared with C05.R5)
+R5 ZcReader/ZcWriter move exactly the count they are given (shared with C02.R10)
 """
 from pyfbr import core, vf
 from rules import common
@@ -305,3 +308,4 @@ META = {
             "create; seal_size_check's arms and the values handed to it are the sealing rule's.",
     "note": "Not decided: file sizes after arbitrary request histories; behaviour of files created through the export.",
 }
+META["text"] += " " + 'Also: operands of the sealing comparison, the cached handle flags track the descriptor (C05.R5), the zero-copy adapters move exactly the given count (C02.R10).'
